@@ -37,6 +37,16 @@ TRUSTED_BASE = [
 ]
 
 
+# which properties' theorems consume which generated facts (Gen/Shape.v)
+SHAPE_USERS = {
+    "select": ("C06", "C07", "C08"),
+    "capacities": ("C06", "C09"),
+    "dead_letters": ("C13", "C17"),
+    "retryable": ("C10",),
+    "forwarders": ("C16",),
+}
+
+
 def load_known():
     out = []
     if os.path.exists(KNOWN):
@@ -85,10 +95,12 @@ def corpus_scripts(fams, feats):
 def run_family_set(pid, cfg, tier, seed):
     """Run all script families of a property on the real implementation. Returns list of
     dicts(script, feats, family)."""
-    n_scale = cfg.get("thorough_scale", 25) if tier == "thorough" else 1
+    n_scale0 = cfg.get("thorough_scale", 25) if tier == "thorough" else 1
     runs = []
     dist_total = {}
     for (fam, feats, n) in cfg["families"]:
+        # real-time scripts cost wall-clock time: scale them less
+        n_scale = min(n_scale0, 8) if fam == "block" else n_scale0
         feats = tuple(sorted(feats))
         key = hashlib.sha256(json.dumps([vlib.repo_hash(), vlib.harness_hash(), vlib.hash_files([gen.__file__]),
                                          fam, feats, seed, n * n_scale, tier,
@@ -227,6 +239,12 @@ def main():
     unparsed = shape["unparsed"]
     if unparsed:
         log("shape: fragments not recognised, falling back to defaults: %s" % unparsed)
+        # a fact this property's theorems consume could not be read from the source: the tie is
+        # broken for it (the committed default is used only so that everything else still builds)
+        for u in unparsed:
+            tag = u.split(":", 1)[0]
+            if pid in SHAPE_USERS.get(tag, ()):
+                problems.append("translator: cannot recognise the source fragment for '%s' (%s)" % (tag, u))
 
     # 2. theorems
     prop_file = cfg["props_file"]
